@@ -141,7 +141,47 @@ def schedules(draw, max_size=300):
 
 
 @st.composite
-def pyramid_cases(draw, max_depth, with_k=True, kmax=8, min_depth=0):
+def deep_sparse_pyramid(draw):
+    """a pyramid of depth 10-12 (where the library starts to print its 'counting tiles' progress notes) that is cheap to
+    enumerate because it is sparse: a sub-pyramid whose apex lies at most two levels above the leaves (possibly at the
+    leaf level: nothing to do), or a filter accepting only the ancestor chains of a few deep positions (possibly cut)"""
+    kind = draw(st.sampled_from(["generic", "toast", "filtered", "filtered"]))
+    depth = draw(st.integers(10, 12))
+    case = {"kind": kind, "depth": depth, "deep": True}
+    if kind != "generic":
+        case["coordsys"] = draw(st.sampled_from(["astronomical", "planetary"]))
+    if kind == "filtered":
+        flip = set()
+        tips = []
+        for _ in range(draw(st.integers(0, 3))):
+            p = tuple(draw(gens.positions(depth, depth - 2)))
+            tips.append(p)
+            cut = draw(st.sampled_from([0, 0, 0, 3, depth - 1, depth]))
+            for lev in range(1, p[0] + 1):
+                if lev != cut:
+                    flip.add(rp.ancestor_at(p, lev))
+            if p[0] < depth and draw(st.booleans()):
+                flip.update(rp.children(p))
+        case["filter"] = {"default": False, "flip": sorted(list(f) for f in flip)}
+        if tips and draw(st.booleans()):
+            t = tips[0]
+            case["apex"] = list(rp.ancestor_at(t, draw(st.integers(0, t[0]))))
+        elif draw(st.integers(0, 3)) == 0:
+            case["apex"] = draw(gens.positions(depth, depth - 1))
+    else:
+        case["apex"] = draw(gens.positions(depth, depth - 2))
+    return case
+
+
+@st.composite
+def pyramid_cases(draw, max_depth, with_k=True, kmax=8, min_depth=0, deep_one_in=0):
+    if deep_one_in and draw(st.integers(1, deep_one_in)) == 1:
+        case = draw(deep_sparse_pyramid())
+        if with_k:
+            case["k"] = draw(st.sampled_from([1, 2, 2, 3, 3, 4, 5, 8][: max(2, kmax)]))
+            if case["k"] > 1:
+                case["sched"] = draw(schedules())
+        return case
     kind = draw(st.sampled_from(["generic", "toast", "filtered", "filtered", "filtered"]))
     depth = draw(st.integers(min_depth, max_depth))
     case = {"kind": kind, "depth": depth}
